@@ -5,6 +5,7 @@ package main
 // The generic oracles in Ctx.Do (no panic, no hang, no error handed back as data) are the property.
 
 import (
+	"math"
 	"sort"
 	"strings"
 
@@ -70,6 +71,9 @@ func c07Receivers() []recvKind {
 		{"func", &TV{T: "func"}},
 		{"chan", &TV{T: "chan"}},
 		{"nan", tvF64(nan())},
+		{"minus-infinity", tvF64(math.Inf(-1))},
+		{"plus-infinity", tvF64(math.Inf(1))},
+		{"array-with-minus-infinity", tvSlice(1, tvF64(1), tvF64(math.Inf(-1)))},
 		{"array-of-objects", tvSlice(1, obj, obj)},
 		{"nil-map", &TV{T: "map", KK: "str", Nil: 1, V: [][2]any{}}},
 		{"nil-slice", &TV{T: "slice", EI: 1, Nil: 1, V: []*TV{}}},
